@@ -428,6 +428,7 @@ def run(res, tier):
     res.rule("WR-4", "raw-slice vmp kernels taking limb_offset: the zero fill starts one stride after the last written limb")
     res.rule("PACK-1", "packing butterflies (pack_internal, GLWEPacker::combine): every path computes (a + b X^t + phi(a - b X^t)) / 2, (a + phi(a)) / 2 or (b X^t - phi(b X^t)) / 2")
     res.rule("SIGN-4", "a Galois element computed with `%` and stored with set_p is reduced modulo cyclotomic_order() / 2 * n()")
+    res.rule("RAD-3", "min / max of the limb counts of two objects only where their radices are known equal")
     res.rule("ROW-1", "row accessors X.at(row, ..) / X.at_mut(row, ..) in a row loop: the loop bound stays within X.dnum() under the comparisons that dominate the access")
     res.rule("RAD-1", "a cross-radix conversion skipped / taken on a radix comparison is guarded by the comparison of exactly its input and output radices")
     res.rule("RAD-2", "no call of an operation asserting equal radices of two arguments sits on a branch whose guards imply that they differ")
@@ -453,6 +454,8 @@ def run(res, tier):
         res.floor("RAD-1", "guarded radix conversions of the key-switching family", nr1, 14)
         nr2 = rad.rad2(p, res, RAD_PREFIXES)
         res.floor("RAD-2", "calls of radix-asserting operations", nr2, 16)
+        nr3 = rad.rad3(p, res, RAD_PREFIXES + ("poulpy_core::api::conversion",))
+        res.floor("RAD-3", "limb counts of two objects combined", nr3, 1)
         nrow = rad.row1(p, res, RAD_PREFIXES + ("poulpy_core::api::keyswitching", "poulpy_core::api::automorphism"))
         res.floor("ROW-1", "row accessors in row loops", nrow, 18)
         res.fn_count += n + n3
